@@ -388,8 +388,10 @@ def check_xy(case, ds, fig, kind, xname, multi, extra, opts):
                         "scatter-colour-data",
                         f"series {i}: colour array {arr.tolist()} vs c at "
                         f"the kept points {cref.tolist()}")
-                if len(arr):
-                    norm = expected_norm(case, ds["cc"].values)
+                norm = expected_norm(case, ds["cc"].values)
+                # (a colour variable with ONE distinct finite value has no
+                # range: matplotlib widens such a norm by itself)
+                if len(arr) and norm.vmin < norm.vmax:
                     art.autoscale_None()
                     require(abs(art.norm.vmin - norm.vmin) < 1e-12 and
                             abs(art.norm.vmax - norm.vmax) < 1e-12,
